@@ -17,9 +17,9 @@ def run(ctx):
         plan = {
             "mc": [("drop_lease", drop, PROPS, dict(family=("lease", "leasebatch", "deqvar"), horizon=20, maxep=2, maxins=2)),
                    ("ret_all", ret, PROPS, dict(family=FAM_ALL, horizon=20, maxep=1, maxins=2, ttls=(10,)))],
-            "gen": [("drop", drop, dict(family=("lease", "leasebatch", "deqvar", "admission", "read"), horizon=10, maxep=1, maxins=2,
+            "gen": [("drop", drop, dict(family=("lease", "leasebatch", "deqvar", "admission", "read", "restart"), horizon=10, maxep=1, maxins=2,
                                         pick="insertion", ttls=(10,), ticks=(10,), delays=(0,)), 4)],
-            "drv": [("drv", "all", 120, 60, dict(churn_every=60))],
+            "drv": [("drv", "all", 120, 60, dict(churn_every=60)), ("aux", "aux", 30, 80, {})],
         }
         # delivered-retention depth guard + memory-pressure guard + drop_oldest together (memory): a refused batch must evict nothing
         guard = q.spec_cfg(maxDepth=2, drop="drop_oldest", delivMaxAge=100000, pressItems=1)
@@ -40,7 +40,7 @@ def run(ctx):
                     ("ret", ret, dict(family=FAM_ALL, horizon=20, maxep=1, maxins=2, pick="insertion", ttls=(10,)), 1),
                     ("sim", ret, dict(family=FAM_ALL, horizon=200, maxep=3, maxins=6, pick="insertion", ids=3, simulate=600, depth=40,
                                       ticks=(1, 5, 10, 30), delays=(0, 7)), 1)],
-            "drv": [("drv", "all", 3000, 80, dict(big_every=40, churn_every=100))],
+            "drv": [("drv", "all", 3000, 80, dict(big_every=40, churn_every=100)), ("aux", "aux", 800, 120, {})],
             "gen_cap": 80000,
         }
     q.run_plan(ctx, plan, RULE)
